@@ -6,14 +6,14 @@ Opaque to the model (validated by the streams only): urlsplit / urlunsplit, the 
 Repaired in /repo and kept as regression cases of stream iri-uri: F15a (`_decode_idna` now leaves a
 malformed `xn--` label as punycode, c7898ed - IDNA is opaque here), F15b (`[` and `]` are now in the
 keep-quoted set of the userinfo, 319c4e1 - stated in `keep_tables_cover_reserved`).
-Known findings with a negation witness below: F15c (`environ_path_full_false`: urlsplit inside
-EnvironBuilder drops TAB/CR/LF), F15d (`environ_url_full_false`: `get_current_url` leaves a literal
-`%XX` of the unquoted path unquoted).
+Known finding with a negation witness below: F15c (`environ_path_full_false`: urlsplit inside
+EnvironBuilder drops TAB/CR/LF). F15d (`get_current_url` left a literal `%XX` of the unquoted path
+unquoted) was repaired in /repo (899f28c) and is a regression case of stream environ-kernel.
 
 All theorems listed in DESIGN.md for C15 (P0 and P1) are proved below; nothing is left OPEN.
 -/
 import WzVerif.Lemmas.UrlStable
-import WzVerif.Lemmas.UrlTextUri
+import WzVerif.Lemmas.UrlDenote
 import WzVerif.Model.UrlEnviron
 namespace Wz.Props.C15
 open Wz Wz.Url
@@ -224,15 +224,14 @@ theorem environ_path_full_false :
     (((builderEnviron plainOpaque "/a\tb".toList "http://localhost/".toList []).bind
       (requestView plainOpaque)).toOption.map (fun r => r.path)) = some "/ab".toList := by decide
 
-/-- **Known finding F15d, as a theorem about the model**: those sets also contain `%`, although
-`root_path` and `path` are already unquoted at that point - so a literal `%41` in the path
-(request target `/%2541`) is left alone by `get_current_url` and read as an escape by the
-`uri_to_iri` that follows: `Request.path` is `"/%41"` but `Request.url` is `"http://localhost/A"`.
-The reconstructed URL does not denote the request's path. -/
-theorem environ_url_full_false :
+/-- Former finding F15d (repaired in /repo, 899f28c: `%` is no longer in the safe sets for the
+already-unquoted `root_path` / `path`): a literal `%41` in the path (request target `/%2541`) is now
+re-quoted, `Request.url` denotes `Request.path` again. -/
+example :
     (((builderEnviron plainOpaque "/%2541".toList "http://localhost/".toList []).bind
       (requestView plainOpaque)).toOption.map (fun r => (r.path, r.url)))
-      = some ("/%41".toList, "http://localhost/A".toList) := by decide
+      = some ("/%41".toList, "http://localhost/%2541".toList) := by decide
+
 
 /-- `%` (0x25) and every C0 control, SP and DEL stay quoted in every component of `uri_to_iri`, and
 each component keeps its own delimiters quoted (tables evaluated from the live compiled patterns):
@@ -361,6 +360,57 @@ example : InGrammarU plainOpaque "http://us%40er:pw@example.com:8080/p%C3%A5%2Ft
 
 example : (uriToIriText plainOpaque "http://us%40er:pw@example.com:8080/p%C3%A5%2Fth?q=%FF#f".toList).toOption
     = some "http://us%40er:pw@example.com:8080/på%2Fth?q=%FF#f".toList := by decide
+
+/-- `get_current_url` quotes the (already unquoted) root path and path with safe sets that do not
+contain `%` (repair 899f28c), so what it quotes decodes back exactly - for EVERY text, a literal
+percent sign included; and fully unquoting what `uri_to_iri` leaves partially quoted gives the same
+characters as fully unquoting the input (`%XX` grammar, any of the four keep tables). -/
+theorem current_url_quoting_is_lossless :
+    (∀ s : Str, unquote (quote Gen.UrlTables.curRootSafe s) = s ∧ unquote (quote Gen.UrlTables.curPathSafe s) = s) ∧
+    (∀ u : Str, wellFormed u = true →
+      unquote (unquotePartial Gen.UrlTables.keepPath u) = unquote u ∧
+      unquote (unquotePartial Gen.UrlTables.keepQuery u) = unquote u) :=
+  ⟨fun s => ⟨unquote_quote_all cur_no_pct.1 s, unquote_quote_all cur_no_pct.2 s⟩,
+   fun u hu => ⟨unquote_unquotePartial keep_tables_ok.1 u hu, unquote_unquotePartial keep_tables_ok.2.1 u hu⟩⟩
+
+example : unquote (quote Gen.UrlTables.curPathSafe "/100%41 é?#".toList) = "/100%41 é?#".toList := by decide
+
+-- OPEN (full `environ_url_roundtrip`): the same conclusion for
+--   requestView o (← builderEnviron o path baseUrl qs)
+-- i.e. with EnvironBuilder's own parsing in front. Missing lemmas: `urlsplit_path_only`
+-- (urlsplit o p = .ok ⟨[], [], p, [], []⟩ and iriToUriText o p = .ok (quote iriPathSafe p) for a path text
+-- p that starts with one '/' and has no '?', '#', TAB/CR/LF - TAB/CR/LF being the F15c exclusion) and
+-- `builder_base_split` (the scheme / netloc / script_root EnvironBuilder reads from
+-- iri_to_uri(base_url), with unquoteReplace (rstripSlash (quote s)) = rstripSlash s). The pipeline is
+-- modelled end to end (Model/UrlEnviron.lean) and compared with the real code by stream
+-- environ-kernel; the PATH_INFO half is `environ_path_roundtrip`.
+
+/-- **`environ_url_roundtrip_partial` - the request side.** For an environ whose SCRIPT_NAME,
+PATH_INFO and QUERY_STRING are the latin-1 dances of `root`, `p` and `qs` (what `EnvironBuilder`
+and a WSGI server put there), with a valid scheme and a URI-form host without userinfo that
+`get_host` leaves alone: `Request.url` is produced; it splits back into the scheme, the decoded host
+with the same port, no fragment; its path component denotes exactly `Request.root_path +
+Request.path`, and its query component denotes what the query string denotes - for every Unicode
+path (literal `%`, `?`, `#` included), under the stated laws of the opaque host conversions. -/
+theorem environ_url_roundtrip_partial (o : UrlOpaque) (laws : HostLaws o)
+    (scheme ha hu root p qs : Str) (port : Option Nat)
+    (ci : CurInput o scheme ha port (rstripSlash root) (utf8Enc qs)) (hconv : o.hostToUnicode ha = some hu)
+    (hgh : getHost scheme (hostBr ha ++ portText port) = hostBr ha ++ portText port) :
+    ∃ rv t, requestView o (danceEnviron scheme (hostBr ha ++ portText port) root p qs) = .ok rv ∧
+      rv.path = '/' :: lstripSlash p ∧ rv.rootPath = rstripSlash root ∧
+      urlsplit o rv.url = .ok t ∧ t.scheme = scheme ∧ t.netloc = hostBr hu ++ portText port ∧
+      unquote t.path = rv.rootPath ++ rv.path ∧
+      unquote t.query = unquote (quote Gen.UrlTables.curQuerySafe qs) ∧ t.fragment = [] :=
+  request_url_denotes laws keep_tables_ok ci hconv hgh
+
+example : CurInput plainOpaque "http".toList "example.com".toList (some 8080) (rstripSlash "/app/".toList)
+    (utf8Enc "q=é&x=%41".toList) :=
+  ⟨⟨by decide, by decide, by unfold noTab; decide⟩, by decide, by decide, by intro k hk; cases hk; decide,
+    by decide, by decide, by decide⟩
+
+example : (((requestView plainOpaque (danceEnviron "http".toList "example.com:8080".toList "/app/".toList
+    "/é %41?x".toList "q=é".toList)).toOption.map (fun r => r.url)))
+    = some "http://example.com:8080/app/é%20%2541%3Fx?q=é".toList := by decide
 
 /-- The latin-1 "dance" is lossless for every string of Unicode scalar values:
 `_wsgi_decoding_dance(_wsgi_encoding_dance(s)) == s`. -/
